@@ -424,6 +424,25 @@ Section IO.
                  end
     end.
 
+  (* VARIANT (not the shipped code; kept as a regression model): the values of all lines in one flat
+     row-major buffer, the column count taken from the first line, ONE test `#values = #lines * columns`
+     and the buffer cut into rows of `columns` values (Eigen::Map<RowMajor>(data, rows, cols)) *)
+  Fixpoint chunks (c n : nat) (l : list V) : list (list V) :=
+    match n with
+    | 0 => []
+    | S n' => firstn c l :: chunks c n' (skipn c l)
+    end.
+
+  Definition to_matrix_total (rows : list (list V)) : rres :=
+    match rows with
+    | [] => RMat []
+    | r0 :: _ =>
+      let flat := concat rows in
+      if Nat.eqb (length flat) (length rows * length r0)
+      then RMat (chunks (length r0) (length rows) flat)
+      else RWrong (length rows)
+    end.
+
   Definition read_data_shipped (d : ascii) (content : string) : rres :=
     to_matrix (parse_rows d (lines_shipped content)).
 
@@ -464,6 +483,14 @@ Arguments RMat {V}. Arguments RWrong {V}.
 (* ---------------------------------------------------------------------- *)
 Inductive read_loop := LoopGetline | LoopStreamThenGetline | LoopOther.
 
+(* the rest of read_data's shape (translate/t_cli.py compares the canonical text of the function):
+   CheckEveryRow   = one vector per non-empty line holding the tokens that parse, then a
+                     rows x row0.size() matrix filled row by row, `if (row_i.size() != cols) throw`
+                     for every i                                        (to_matrix)
+   CheckTotalCount = flat buffer + one aggregate test                  (to_matrix_total)
+   CheckOther      = anything else *)
+Inductive read_check := CheckEveryRow | CheckTotalCount | CheckOther (text : string).
+
 Section Main.
   Variable V : Type.
   Variable parse : string -> option V.
@@ -491,14 +518,27 @@ Section Main.
     | _ => None
     end.
 
-  Definition read_with (l : read_loop) (d : ascii) (content : string) : option (rres V) :=
+  Definition lines_with (l : read_loop) (content : string) : option (list string) :=
     match l with
-    | LoopGetline => Some (read_data_fixed V parse d content)
-    | LoopStreamThenGetline => Some (read_data_shipped V parse d content)
+    | LoopGetline => Some (lines_fixed content)
+    | LoopStreamThenGetline => Some (lines_shipped content)
     | LoopOther => None
     end.
 
-  Definition cli_main (T : tables) (l : read_loop) (a : args) (content : string) : result :=
+  Definition to_matrix_with (c : read_check) (rows : list (list V)) : option (rres V) :=
+    match c with
+    | CheckEveryRow => Some (to_matrix V rows)
+    | CheckTotalCount => Some (to_matrix_total V rows)
+    | CheckOther _ => None
+    end.
+
+  Definition read_with (l : read_loop) (c : read_check) (d : ascii) (content : string) : option (rres V) :=
+    match lines_with l content with
+    | Some ls => to_matrix_with c (parse_rows V parse d ls)
+    | None => None
+    end.
+
+  Definition cli_main (T : tables) (l : read_loop) (c : read_check) (a : args) (content : string) : result :=
     match cli_decide T a with
     | Exit c => Fail c
     | Stuck => MStuck
@@ -507,7 +547,7 @@ Section Main.
             io_bool io "transpose_input_when", io_bool io "transpose_output_when",
             io_bool io "precompute_when", io_bool io "write_projection_when" with
       | Some dr, Some dw, Some dp, Some tin, Some tout, Some pre, Some wproj =>
-        match read_with l dr content with
+        match read_with l c dr content with
         | None => MStuck
         | Some (RWrong _) => Fail (catch_code T)            (* runtime_error -> main()'s handler *)
         | Some (RMat file) =>
@@ -532,6 +572,10 @@ End Main.
 (* ---------------------------------------------------------------------- *)
 (*  Part C.  matrix_from_callback (util.hpp) and the precomputed callbacks *)
 (* ---------------------------------------------------------------------- *)
+(* shape of matrix_from_callback as translate/t_cli.py reads it *)
+Inductive mfc_init := InitUninit | InitZero.
+Inductive mfc_shape := MfcLoops (init : mfc_init) (off : nat) | MfcOther (text : string).
+
 Section Precompute.
   Variable S : Type.                                   (* ScalarType *)
   Variable cb : nat -> nat -> S.                       (* the direct callback (distance or kernel) *)
@@ -548,6 +592,22 @@ Section Precompute.
     fun a b => if Nat.eqb a (fst (fst w)) && Nat.eqb b (snd (fst w)) then Some (snd w) else t a b.
 
   Definition matrix_from_callback (N : nat) : table := fold_left upd (writes N) (fun _ _ => None).
+
+  (* the same loops with the two things an edit of the function can change: the initial content of
+     `result` and the first column visited in row i (`for (j = i + off; ...)`) *)
+  Definition writes_from (off N : nat) : list ((nat * nat) * S) :=
+    flat_map (fun i => flat_map (fun j => [((i, j), cb i j); ((j, i), cb i j)]) (seq (i + off) (N - (i + off))))
+             (seq 0 N).
+
+  Definition mfc_with (init : table) (off N : nat) : table := fold_left upd (writes_from off N) init.
+
+  Definition mfc_of_shape (zero : S) (sh : mfc_shape) (N : nat) : option table :=
+    match sh with
+    | MfcLoops InitUninit off => Some (mfc_with (fun _ _ => None) off N)
+    | MfcLoops InitZero off =>
+      Some (mfc_with (fun a b => if Nat.ltb a N && Nat.ltb b N then Some zero else None) off N)
+    | MfcOther _ => None
+    end.
 
   (* precomputed_*_callback: table(a, b); the table is only built when the method's trait asks for it *)
   Definition precomputed (needed : bool) (N : nat) : table :=
